@@ -5,6 +5,7 @@ import CC.Props.C04
 import CC.Props.C05
 import CC.Props.C06
 import CC.Props.C09
+import CC.Props.C11
 /-! # Witnesses: the hypotheses of the reachable-world theorems are met by concrete histories
 
 These are **tests** (`#guard`, evaluated by the Lean interpreter when the file is built — a failing
@@ -101,5 +102,25 @@ pruned secret, and still opens the rest -/
 /-! C03: identifiers after delete + add are fresh -/
 #guard ((run (base ++ [.edit (.delAttr "D" "B"), .edit (.addAttr "D" "E" false none)])).msk.structure_.dims.lookup "D").map
   (fun d => d.attrs.map (fun a => a.2.id)) == some [2, 4]
+
+/-! C04 (keep): generate, encapsulate, rekey twice (partially), prune another right, edit and
+update; then refresh with keep: the old encapsulation still opens, and the hypotheses of
+`keep_refresh_still_opens` (the opening secret is still in the master key) hold -/
+#guard (do
+  let u ← keygenOf w4 "S::T && D::A"
+  let w1 := w4.step (.keygen (pol "S::T && D::A"))
+  let (sOld, xOld) ← encapsOf w1 "D::A" 9000
+  let w2 := [Op.rekey (pol "D::A"), .rekey (pol "S::T && D::A"), .prune (pol "D::B"), .edit (.addAttr "D" "C" true none), .update].foldl World.step w1
+  let r := refresh w2.msk u true w2.rng
+  let stillHeld := u.secrets.any (fun (rt, ch) => ch.any (fun k => xOld.targets.any (fun t => opens xOld.hybrid k t) &&
+    ((w2.msk.secrets.lookup rt).map (fun mc => (mc.map (·.2)).contains k)).getD false))
+  pure (decaps u xOld == some sOld && r.1 matches .ok () && stillHeld && decaps r.2.2.1 xOld == some sOld)) == some true
+
+/-! C11: after edits, updates and rekeys the newest secret of a right with a hybridized attribute
+is hybridized, of a right without one classic -/
+#guard (let w := [Op.rekey (pol "S::T"), .edit (.disable "S" "T"), .update, .rekey (pol "D::A")].foldl World.step w4
+  ((w.msk.secrets.lookup (Right.fromPoint [1])).bind List.head?).map (·.2.hyb) == some true &&
+  ((w.msk.secrets.lookup (Right.fromPoint [2])).bind List.head?).map (·.2.hyb) == some false &&
+  ((w.msk.secrets.lookup (Right.fromPoint [1, 2])).bind List.head?).map (·.2.hyb) == some true)
 
 end CC.Props.NonVacuity
